@@ -41,6 +41,7 @@ type save2In struct {
 	CrashNth   int    // ... at its CrashNth hit within the second save
 	LockThread bool   // run on one locked OS thread (strace counts injected syscalls per thread)
 	ObserveSum bool   // like Observe, but the offsets file is written to <Cur>.obs-<k> instead of being returned
+	LoadFirst  bool   // the offsetDB loads the offsets file before its first save, as a restarted file.d does
 }
 
 type obs struct {
@@ -65,6 +66,11 @@ func childSave2(raw json.RawMessage, io *core.ChildIO) (any, error) {
 		runtime.LockOSThread()
 	}
 	db := file.VerifNewOffsetDB(in.Cur, in.Tmp)
+	if in.LoadFirst {
+		io.Log(map[string]string{"step": "load"})
+		_, lerr := db.Load()
+		io.Log(map[string]string{"step": "loaded", "err": fmt.Sprint(lerr)})
+	}
 	if in.P != nil {
 		io.Log(map[string]string{"step": "save P"})
 		db.Save(in.P.toReal())
